@@ -3,7 +3,7 @@
     for the script as the code runs it (the reads of the prior's parameters fill the cache before each assignment). *)
 From Coq Require Import List String Bool Arith Lia.
 From Leaspy Require Import State.StateModel State.StateProofs State.StateNow Io.EndOfFit Io.EndOfFitProofs
-                           Compose.StateApi Compose.StateApiProofs Compose.StateEndOfFit.
+                           Compose.StateApi Compose.StateApiProofs Compose.StateApiRunProofs Compose.StateEndOfFit.
 Import ListNotations.
 Open Scope string_scope.
 Open Scope list_scope.
@@ -122,6 +122,15 @@ Proof.
   destruct (get_props V g wf (values s) i HI HB) as (_ & _ & HE & _). exact (extends_indep V g _ _ _ HE j Lj).
 Qed.
 
+(** the five hypotheses of Io/EndOfFitProofs.v, together *)
+Theorem store_interface :
+  (forall s n, s_get s n = s_eval (s_vals s) n) /\
+  (forall s n v m, s_indep n = true -> s_vals (s_set n v s) m = EndOfFitProofs.upd (option V) (s_vals s) n v m) /\
+  (forall s m, s_vals (s_clone s) m = s_vals s m) /\
+  (forall a n, s_indep n = true -> s_eval a n = a n) /\
+  (forall a a' n, (forall m, a m = a' m) -> s_eval a n = s_eval a' n).
+Proof. exact (conj s_fresh_reads (conj s_set_vals (conj s_clone_vals (conj s_eval_indep s_eval_ext)))). Qed.
+
 (** ** C12_self_consistent on the real State model *)
 Section Script.
 Variable stat : prior_stat -> string -> (string -> option V) -> option V.
@@ -184,3 +193,36 @@ Qed.
 
 End Script.
 End Proofs.
+
+(** ** ... for every State object of every store reachable from [init_store] *)
+Section Reachable.
+Variables V M IX : Type.
+Variable g : graph V.
+Variable sm : sem V M IX.
+Hypothesis wf : WF g.
+Hypothesis fmix : F_mix g sm.
+Variable names : list string.
+Hypothesis names_nodup : NoDup names.
+Hypothesis names_length : List.length names = gn g.
+Variable stat : prior_stat -> string -> (string -> option V) -> option V.
+Variable prior_params : string -> list string.
+Variable pops : list string.
+Hypothesis pops_nodup : NoDup pops.
+Hypothesis pops_indep : forall pp, In pp pops -> s_indep V g names pp = true.
+Hypothesis stat_local : forall k pp f f', (forall q, In q (prior_params pp) -> f q = f' q) -> stat k pp f = stat k pp f'.
+Hypothesis prior_params_ok : forall pp q, In pp pops -> In q (prior_params pp) -> s_indep V g names q = true /\ ~ In q pops.
+
+Theorem self_consistent_reach (S : StateModel.store V) (k : nat) (s : state V) :
+  Reach V g M IX sm S -> nth_error S k = Some s ->
+  exists gs : gstate V g, proj1_sig gs = s /\
+    let s' := end_of_fit_cached V g wf names stat prior_params pops gs in
+    (forall pp, In pp pops -> s_get V g names s' pp = stat UseMode pp (s_get V g names gs)) /\
+    (forall q, s_indep V g names q = true -> ~ In q pops -> s_get V g names s' q = s_get V g names gs q) /\
+    (forall nm, s_get V g names s' nm =
+                s_eval V g names (target (option V) (gstate V g) (s_get V g names) stat (s_vals V g names) UseMode gs pops) nm).
+Proof.
+  intros HR Hs. exists (exist _ s (proj1 (reach_cache V M IX g sm wf fmix S k s HR Hs))). split; [reflexivity|].
+  exact (self_consistent_cached V g wf names names_nodup names_length stat prior_params pops pops_nodup pops_indep
+           stat_local prior_params_ok _).
+Qed.
+End Reachable.
